@@ -110,6 +110,8 @@ pub fn family(tier: Tier) -> Vec<TrainCfg> {
     let seeds: Vec<(&str, Vec<(&str, &str)>)> = vec![
         ("plain", vec![("a", "N,x"), ("b", "V,y"), ("ab", "N,z"), ("c", "P,x"), ("bc", "V,x")]),
         ("quoted", vec![("a,b", "N,\"p,q\""), ("a", "N,x"), ("a", "V,x"), ("あ", "N,x"), ("b", "\"p,q\",y"), ("c", "P,x"),
+            // surfaces with a lone CR (a record terminator to the CSV reader unless quoted), a leading blank, a leading '#'
+            ("a\rb", "N,cr-inside"), ("\rb", "V,leading-cr"), (" a", "N,leading-blank"), ("#a", "P,hash"),
             ("aaaaaaaaaabbbbbbbbbbccccccccccaaaa,b", "N,long-late-comma"),
             ("aaaaaaaaaabbbbbbbbbbccccccccccaaaaaaaaaabbbbbbbbbbccccccccccaaaa,1", "N,late-comma-at-64"),
             ("ccccccccccccccccccccccccccccccccccccccccccccccccccccccccccccccccccccccccccccccccccccccccccccccccccccccccccccccccccccccccccccccccc\"q", "P,late-quote-at-129"), ("bbbbbbbbbbccccccccccaaaaaaaaaabbbbbbbbbbc\"c", "V,\"long,late quote in a feature cell that is itself long enough\"")]),
@@ -124,7 +126,8 @@ pub fn family(tier: Tier) -> Vec<TrainCfg> {
     let bi_menu = [("B1:%L[0]", "%R[0]"), ("%L[0],%L?[1]", "%R[1]"), ("B3:%L?[1]", "B3:%R?[1]")];
     let rewrites = [
         "",
-        "[unigram rewrite]\n*,* $1,$2\n[left rewrite]\nN,* $1,k\n*,* $1,$2\n[right rewrite]\n(N|V),x $1,$2\n* $1,z\n",
+        // (*) is a group listing the literal text '*', not the wildcard
+        "[unigram rewrite]\n*,* $1,$2\n[left rewrite]\nN,(*) $1,STAR\nN,* $1,k\n*,* $1,$2\n[right rewrite]\n(N|V),x $1,$2\n(P),(*) $1,PSTAR\n* $1,z\n",
         // no catch-all rules: a section that does not match must fall back to the ORIGINAL features
         "[unigram rewrite]\nN,x UNI,$2\nV,* UNV,$2\n[left rewrite]\nV,* $1,LL\n[right rewrite]\nP,* RR,$2\nN,z $1,RZ\n",
     ];
@@ -139,7 +142,7 @@ pub fn family(tier: Tier) -> Vec<TrainCfg> {
         vec![],
         vec!["ac,0,0,0,N,x\nca,0,0,0,V,new\n"],
         vec!["ac,1,1,77,N,x\n"],
-        vec!["ac,0,0,0,N,x\n", "\"x,y\",1,2,-5,Q,q\nbb,0,0,0,V,y\n"],
+        vec!["ac,0,0,0,N,x\n\"c\rc\",0,0,0,N,x\n", "\"x,y\",1,2,-5,Q,q\nbb,0,0,0,V,y\n"],
         // the same feature string on surfaces of different character categories
         vec!["ac,0,0,0,N,x\nあc,0,0,0,N,x\n c,0,0,0,N,x\n\"ccccccccccccccccccccccccccccccccccccc,a\",0,0,0,P,x\n\"cccccccccccccccccccccccccccccccccccbc,b\",2,1,9,P,x\n"],
     ];
